@@ -279,13 +279,18 @@ func generateMore(suite string, seed uint64, i int, r *rng, id string, g gp) *Ca
 		base := scaleCfg(cfg, 0)
 		return &Case{ID: id, Op: "multi", Arg: map[string]any{"rel": "scale", "k": float64(k)},
 			Runs: []Run{{base, edges}, {scaleCfg(base, k), edges}}}
+	case "c18bk": // C18: the positioner with a monitor-side verification step, heterogeneous widths, helper nodes
+		g.kind = []int{3, 3, 1, 0}[r.intn(4)]
+		edges, names := genGraph(r, g)
+		cfg := genCfg(r, cp{p1: []int{0, 1}, p2: []int{0, 1}, p4: []int{4}, bk: []int{-1}, p5: []int{0, 1, 2}, sizes: 1, mon: r.chance(1, 2)}, names)
+		return &Case{ID: id, Op: "layout", Cfg: cfg, Edges: edges, Arg: map[string]any{"montoggle": 1.0}}
 	case "history": // C18
 		nruns := r.rangeIn(1, 3)
 		var runs []Run
 		for j := 0; j < nruns; j++ {
 			g.maxN, g.maxM = 6, 8
 			edges, names := genGraph(r, g)
-			cfg := genCfg(r, cp{p1: []int{0, 1}, p2: []int{0, 1}, p4: []int{0, 1, 2}, p5: []int{0, 1, 2}}, names)
+			cfg := genCfg(r, cp{p1: []int{0, 1}, p2: []int{0, 1}, p4: []int{0, 1, 2, 3, 4}, bk: allBK, p5: []int{0, 1, 2}}, names)
 			runs = append(runs, Run{cfg, edges})
 		}
 		ncalls := r.rangeIn(2, 7)
